@@ -1259,13 +1259,24 @@ impl AsLogicalPlan for LogicalPlanNode {
                     name,
                     schema,
                     fetch,
+                    projection,
                 } = cte_work_table_scan_node;
-                let schema = convert_required!(*schema)?;
+                let schema: Schema = convert_required!(*schema)?;
+                let projection = projection
+                    .as_ref()
+                    .map(|columns| {
+                        columns
+                            .columns
+                            .iter()
+                            .map(|name| schema.index_of(name))
+                            .collect::<Result<Vec<usize>, _>>()
+                    })
+                    .transpose()?;
                 let cte_work_table = CteWorkTable::new(name.as_str(), Arc::new(schema));
                 LogicalPlanBuilder::scan_with_filters_fetch(
                     name.as_str(),
                     provider_as_source(Arc::new(cte_work_table)),
-                    None,
+                    projection,
                     vec![],
                     fetch.map(|f| f as usize),
                 )?
@@ -1523,6 +1534,7 @@ impl AsLogicalPlan for LogicalPlanNode {
                                 name,
                                 schema: Some(schema),
                                 fetch,
+                                projection,
                             },
                         )),
                     })
